@@ -144,38 +144,47 @@ def mantLoop : Bool → Nat → Bool → List Nat → Bool × Nat × Bool × Lis
 /-- the exponent value as `readFloat` accumulates it (`if e < 10000 { e = e*10 + digit }`) -/
 def expValue (ds : List Nat) : Nat := ds.foldl (fun e c => if e < 10000 then e * 10 + (c - 0x30) else e) 0
 
+/-- the optional sign of the exponent: (negative?, what follows it) -/
+def expSign : List Nat → Bool × List Nat
+  | 0x2B :: t => (false, t)
+  | 0x2D :: t => (true, t)
+  | t => (false, t)
+
 /-- the optional exponent part and the end-of-input test of `ParseFloat` (`n != len(s)` → ErrSyntax);
 `some e` = well-formed with exponent `e` -/
 def expPart : List Nat → Option Int
   | [] => some 0
   | c :: r =>
     if c == 0x65 || c == 0x45 then
-      let (neg, ds) := match r with
-        | 0x2B :: t => (false, t)
-        | 0x2D :: t => (true, t)
-        | t => (false, t)
+      let ds := (expSign r).2
       if ds.isEmpty || !ds.all isDigitB then none
-      else some (if neg then -(expValue ds : Int) else (expValue ds : Int))
+      else some (if (expSign r).1 then -(expValue ds : Int) else (expValue ds : Int))
     else none
+
+/-- `x` / `X` next: after a leading `0`, a hexadecimal mantissa -/
+def hexMark : List Nat → Bool
+  | x :: _ => x == 0x78 || x == 0x58
+  | [] => false
+
+/-- decided by the first characters (after the sign): `special` — inf / infinity / nan in any letter case — or `0x` / `0X` -/
+def specialHead : List Nat → Bool
+  | c :: r => c == 0x69 || c == 0x49 || c == 0x6E || c == 0x4E || (c == 0x30 && hexMark r)
+  | [] => false
+
+/-- `readFloat` in base 10 and the end test of `ParseFloat`; the value is below 10^(nint + e): no `ErrRange` when that is
+at most 10^308 -/
+def decimalClass (body : List Nat) : AtofClass :=
+  match mantLoop false 0 false body with
+  | (_, nint, sawdigits, rest) =>
+    if !sawdigits then .syntaxErr else
+    match expPart rest with
+    | none => .syntaxErr
+    | some e => if (nint : Int) + e ≤ 308 then .number else .special
 
 /-- classification of the text given to `strconv.ParseFloat` -/
 def atofClass (s : List Nat) : AtofClass :=
-  if s.contains 0x5F then .special else
-  let body := stripSign s
-  match body with
-  | [] => .syntaxErr
-  | c :: r =>
-    -- `special`: [+-]?(inf|infinity|nan), any letter case
-    if c == 0x69 || c == 0x49 || c == 0x6E || c == 0x4E then .special
-    -- `0x` / `0X`: hexadecimal mantissa
-    else if c == 0x30 && (match r with | x :: _ => x == 0x78 || x == 0x58 | [] => false) then .special
-    else
-      let (_, nint, sawdigits, rest) := mantLoop false 0 false body
-      if !sawdigits then .syntaxErr else
-      match expPart rest with
-      | none => .syntaxErr
-      | some e =>
-        -- the value is below 10^(nint + e): no `ErrRange` when that is at most 10^308
-        if (nint : Int) + e ≤ 308 then .number else .special
+  if s.contains 0x5F then .special
+  else if specialHead (stripSign s) then .special
+  else decimalClass (stripSign s)
 
 end ZnVerif.Model.TextOps
